@@ -1,4 +1,6 @@
 //! Native reproducer for finding F10 / F-index-1 of vx/batches/index.py (C01 "never ... overflows the stack", carrier
+//! STATUS: fixed in /repo commit 67ea7a2 (tail call replaced by `continue` in a loop); on the fixed tree both cases print `ok`.
+//!
 //! `read::aranges::ArangeEntry::parse`, owners C01/C17).
 //!
 //! `ArangeEntry::parse` handles a (0, 0) tuple that is not the last one by calling itself (`(0, 0) => Self::parse(input,
